@@ -75,9 +75,9 @@ CHECKS["C17"] = dict(
    note="finite catalogue of statement classes stands in for 'every SQL text'; two agents; loopback HTTP")
 CHECKS["C19"] = dict(
    level="exploration", engine="backup", design="§6/C19",
-   technique="TLA+ spec BackupRestore.tla (site-ordinal table under Backup/Restore) checked by TLC; real `corrosion backup`/`restore` runs on databases built by real agents compared with the model's ordinal tables and the source's crsql_changes, with a concurrent reader process",
-   text="TLC checks, for every initial ordinal assignment and authorship within the bounds, that Backup followed by Restore (fresh identity, kept known identity, kept unknown identity) preserves the author of every cell and keeps ordinals one-to-one. The real binary built from /repo is then run on a source holding cells authored by itself, by a foreign actor and by the destination, a deletion and an overwrite: the backup's ordinal table must be the model's Backup of the source's, it must hold no membership rows and no self ordinal, both restored databases must show the source's crsql_changes with the same actor ids, --self-actor-id must bring the node back under its own id, the subscriptions directory must be gone, and every successful read of a reader process looping during the restore must show the old or the new content in full.",
-   note="one table shape, WAL mode; restore window is short, so few reads overlap it; quick: 2 rounds, thorough: 10")
+   technique="TLA+ specs BackupRestore.tla (site-ordinal table under Backup/Restore) and RestoreLock.tla (lock sequence of the live restore against SQLite reader connections) checked by TLC; real `corrosion backup`/`restore` runs on databases built by real agents compared with the model's ordinal tables and the source's crsql_changes, with a concurrent reader process and idle reader connections holding cached pages",
+   text="TLC checks, for every initial ordinal assignment and authorship within the bounds, that Backup followed by Restore (fresh identity, kept known identity, kept unknown identity) preserves the author of every cell and keeps ordinals one-to-one. The real binary built from /repo is then run on a source holding cells authored by itself, by a foreign actor and by the destination, a deletion and an overwrite: the backup's ordinal table must be the model's Backup of the source's, it must hold no membership rows and no self ordinal, both restored databases must show the source's crsql_changes with the same actor ids, --self-actor-id must bring the node back under its own id, the subscriptions directory must be gone, and every successful read of a reader process looping during the restore must show the old or the new content in full. RestoreLock.tla is checked for whole reads / untouched-on-abort / exclusive copy / termination in WAL and rollback mode, and its stale-cache counter-example (known finding S14) is reproduced with real connections.",
+   note="one table shape; restore window is short, so few reads overlap it; SQLite's cache-validity rules are modelled from its documentation/source, not traced; quick: 2 rounds, thorough: 10")
 CHECKS["C15"] = dict(
    level="model_checking", engine="schema", design="§6/C15",
    technique="TLA+ spec Schema.tla (accept = constrain + diff rules, merge) checked by TLC; every edge of its state graph replayed through the real api_v1_db_schema on real agents incl. restart",
@@ -137,7 +137,7 @@ def main():
             {"name": "sublifecycle", "path": "specs/SubLifecycle.tla + harness/src/sublife.rs + lib/prop_c13.py", "serves_properties": ["C13"], "kind_free_text": "TLA+ model checked by TLC; real stop/restart scenarios judged"},
             {"name": "cluster", "path": "specs/Cluster.tla + harness/src/clusterprobe.rs + lib/prop_c16.py", "serves_properties": ["C16"], "kind_free_text": "TLA+ model checked by TLC; matrix replayed on real agents"},
             {"name": "apigate", "path": "specs/ApiGate.tla + harness/src/apigate.rs + lib/prop_c17.py", "serves_properties": ["C17"], "kind_free_text": "enumerated tables checked by TLC and replayed on a live listener"},
-            {"name": "backup", "path": "specs/BackupRestore.tla + harness/src/backup.rs + lib/prop_c19.py", "serves_properties": ["C19"], "kind_free_text": "TLA+ model checked by TLC; real backup/restore commands judged against it"},
+            {"name": "backup", "path": "specs/BackupRestore.tla + specs/RestoreLock.tla + harness/src/backup.rs + lib/prop_c19.py", "serves_properties": ["C19"], "kind_free_text": "TLA+ model checked by TLC; real backup/restore commands judged against it"},
             {"name": "schema", "path": "specs/Schema.tla + lib/schema_cat.py + harness/src/schemareplay.rs + lib/prop_c15.py", "serves_properties": ["C15"], "kind_free_text": "TLA+ model checked by TLC; all edges replayed on real agents"},
             {"name": "replication", "path": "specs/Replication.tla + specs/TraceReplication.tla + specs/MCReplication*.tla + harness/src/sim.rs + lib/repl.py + lib/repl_check.py", "serves_properties": ["C01", "C03", "C05", "C06", "C07"], "kind_free_text": "TLA+ model checked by TLC; recorded walks of real agents validated against the spec; counter-examples replayed on real agents"},
             {"name": "bookkeeping", "path": "specs/Bookkeeping.tla + specs/MCBookkeeping.tla + harness/src/bk.rs + lib/prop_c02.py", "serves_properties": ["C02"], "kind_free_text": "TLA+ model checked by TLC; all edges replayed on the real crates"},
